@@ -44,10 +44,16 @@ Proof.
   intros H. destruct e; unfold process; cbv zeta.
   - intros E; inversion E; subst; cbn [r_x]. apply settle_ok; try apply settle_round_ok; auto.
   - destruct (natmem t (r_wait st)); [discriminate|].
-    destruct (tstep (fst (r_x st)) t) as [[s' [l'|]]|] eqn:Es; try discriminate.
+    set (x0 := if is_lget l then r_x st else silent_read (r_x st) t).
+    assert (H0 : okx s0 x0).
+    { unfold x0. destruct (is_lget l); auto. unfold silent_read.
+      destruct (tstep (fst (r_x st)) t) as [[s1 [[]|]]|] eqn:E1; auto.
+      destruct (r_x st) as [s sched]. eapply okx_step; eauto. }
+    clearbody x0.
+    destruct (tstep (fst x0) t) as [[s' [l'|]]|] eqn:Es; try discriminate.
     destruct (label_eqb l l'); [|discriminate].
     intros E; inversion E; subst; cbn [r_x]. apply settle_ok; try apply settle_round_ok.
-    destruct (r_x st) as [s sched]. eapply okx_step; eauto.
+    destruct x0 as [s sched]. eapply okx_step; eauto.
   - intros E; inversion E; subst; cbn [r_x]. apply settle_ok; try apply settle_round_ok; auto.
   - intros E; inversion E; subst; cbn [r_x].
     destruct (nth_error (c_threads (fst (r_x st))) t) as [[o p]|]; auto.
@@ -172,10 +178,17 @@ Proof.
       match goal with |- context [if ?c then _ else _] => destruct c eqn:C end; [|discriminate].
       intros E; inversion E; subst. apply doc_same_eq in C. subst d.
       apply sq_remove; auto. intros j. rewrite get_del, Z.eqb_sym. reflexivity.
+    + destruct (get m i) as [d0|] eqn:G; [|discriminate].
+      match goal with |- context [if ?c then _ else _] => destruct c eqn:C end; [|discriminate].
+      intros E; inversion E; subst. apply doc_same_eq in C. subst d.
+      apply sq_get; auto.
   - destruct o; try discriminate. destruct (get m i) eqn:G; [discriminate|].
     intros E; inversion E; subst. apply sq_remove_missing; auto.
-  - destruct o; try discriminate. destruct (get m i) eqn:G; [discriminate|].
-    intros E; inversion E; subst. apply sq_update_missing; auto.
+  - destruct o; try discriminate.
+    + destruct (get m i) eqn:G; [discriminate|].
+      intros E; inversion E; subst. apply sq_update_missing; auto.
+    + destruct (get m i) eqn:G; [discriminate|].
+      intros E; inversion E; subst. apply sq_get_missing; auto.
   - destruct o; try discriminate. intros E; inversion E; subst. apply sq_flush; auto.
   - intros E; inversion E; subst. apply sq_err; auto.
 Qed.
